@@ -75,4 +75,13 @@ __CPROVER_ensures(segment->commit_mask.mask[0] == ~(size_t)0 ==> g_af_committed 
 __CPROVER_ensures(g_af_kind == (int)segment->memid.memkind && g_af_arena_id == segment->memid.mem.arena.id && g_af_block_index == segment->memid.mem.arena.block_index)
 __CPROVER_ensures(segment->thread_id == 0 && g_mapfreed_n == 1 && g_mapfreed_p == segment && g_track_n == 1 && g_track_amount == -(long)VC_SEGSIZE(segment))
 __CPROVER_ensures(!segment->was_reclaimed && tld->reclaim_count == g_rc0 - (__CPROVER_old(segment->was_reclaimed) ? 1 : 0));
+/* mi_segments_track_size against its specification (ENFORCED on the real segment.c, pair track_size; the pairs above use it as a recorder):
+   the thread's segment accounting moves by exactly one segment and exactly the size given (negative = a segment given back), peaks never
+   drop and dominate the current values, nothing else in the tld changes (frame). size_t arithmetic is modular, as in the code. */
+size_t g_cnt0, g_cur0, g_pkc0, g_pks0;
+static void c_track_size_spec(long segment_size, mi_segments_tld_t* tld)
+__CPROVER_requires(__CPROVER_is_fresh(tld, sizeof(*tld)) && tld->count == g_cnt0 && tld->current_size == g_cur0 && tld->peak_count == g_pkc0 && tld->peak_size == g_pks0)
+__CPROVER_assigns(tld->count, tld->peak_count, tld->current_size, tld->peak_size)
+__CPROVER_ensures(tld->count == (segment_size >= 0 ? g_cnt0 + 1 : g_cnt0 - 1) && tld->current_size == g_cur0 + (size_t)segment_size)
+__CPROVER_ensures(tld->peak_count == (tld->count > g_pkc0 ? tld->count : g_pkc0) && tld->peak_size == (tld->current_size > g_pks0 ? tld->current_size : g_pks0));
 #endif
